@@ -78,7 +78,8 @@ func (m *manager) get(key string) *item {
 		}
 		if raw != nil {
 			if _, err := it.UnmarshalMsg(raw); err != nil {
-				return it
+				// a value that does not decode is no entry: drop what was decoded of it
+				*it = item{}
 			}
 		}
 		return it
